@@ -473,7 +473,8 @@ func (b *c16GateBatch) Write() error {
 type c16Cfg struct {
 	Name   string
 	Buffer int      // WriteBufferSize
-	Gated  bool     // asynchronous flush, held at the gate while the reads are checked; clean caches disabled
+	Gated  bool     // asynchronous flush, held at the gate while the reads are checked
+	Cache  int      // size of the clean node/state caches (0: disabled)
 	MaxDL  int      // maxDiffLayers (package variable, the same for all configurations of one run)
 	Cap    bool     // explicit cap(root,1) operations in the alphabet
 	Start  c16World // world that is committed to the disk layer before the exploration starts (zero value: fresh database)
@@ -492,11 +493,10 @@ type c16Inst struct {
 func c16NewInst(u *c16Universe, cfg c16Cfg) *c16Inst {
 	in := &c16Inst{cfg: cfg, u: u, heldS: make([]database.StateReader, len(u.worlds)), heldN: make([]database.NodeReader, len(u.worlds))}
 	var disk ethdb.Database = rawdb.NewMemoryDatabase()
-	cache := 64 * 1024
+	cache := cfg.Cache
 	if cfg.Gated {
 		in.gate = c16NewGate()
 		disk = &c16GateDB{disk, in.gate}
-		cache = 0
 	}
 	in.db = New(disk, &Config{
 		TrieCleanSize:     cache,
@@ -1140,33 +1140,56 @@ func TestVerif_C16(t *testing.T) {
 		u := c16GetUniverse()
 		old := maxDiffLayers
 		defer func() { maxDiffLayers = old }()
-		maxDiffLayers = 2
-		depth := mc.Pick(r, 4, 5)
 		r.Rule("explicit-state BFS over sequences of Update(parent in live roots, delta in 8 single-field deltas incl. the no-op that must be rejected) / cap(root,1) / Commit(root) " +
 			"on the real pathdb.Database; worlds = 2 accounts x 1 slot (14 worlds) with their real state roots; state key = reference layer tree + white-box fingerprint " +
 			"(layers with parent links, descendants, lookup lists, buffers, clean caches, persistent store); distinct = distinct (key, first trace)")
 		r.Bound("worlds", len(u.worlds))
-		r.Bound("maxDiffLayers", maxDiffLayers)
-		r.Bound("depth", depth)
 		r.Assume("reference model = per-world flat state and complete trie node set built with fresh in-memory tries (trie package is trusted), layer tree as parent map: a cap keeps exactly the descendants of the new disk layer, Commit keeps only the committed root, inserting an existing root is a no-op")
 		r.Assume("NoAsyncGeneration; background flushes are either synchronous (NoAsyncFlush) or held at a deterministic gate in front of the key-value batch write and awaited through buffer.done; concurrent readers during flattening are not part of this check")
 		full := c16World{A: 1, AS: 1, B: 1}
-		var cfgs []c16Cfg
-		for _, start := range []c16World{{}, full} {
+		type plan struct {
+			cfg   c16Cfg
+			depth int
+		}
+		mk := func(kind string, start c16World, mdl int) c16Cfg {
 			sn := "fresh"
 			if start != (c16World{}) {
 				sn = "disk=" + start.String()
 			}
-			cfgs = append(cfgs,
-				c16Cfg{Name: "buf0/" + sn, Buffer: 0, MaxDL: 2, Cap: true, Start: start},
-				c16Cfg{Name: "buf1M/" + sn, Buffer: 1 << 20, MaxDL: 2, Cap: true, Start: start},
-				c16Cfg{Name: "buf0-gated/" + sn, Buffer: 0, Gated: true, MaxDL: 2, Cap: true, Start: start})
+			cfg := c16Cfg{Name: fmt.Sprintf("%s/%s/maxdiff=%d", kind, sn, mdl), MaxDL: mdl, Cap: true, Start: start}
+			switch kind {
+			case "buf0+cache": // every flattened layer is flushed synchronously; reads served by clean caches / store
+				cfg.Buffer, cfg.Cache = 0, 64*1024
+			case "buf1M": // flattened layers stay in the live write buffer until a Commit
+				cfg.Buffer = 1 << 20
+			case "buf0-gated": // every flattened layer is frozen and its flush held: reads served by the frozen buffer
+				cfg.Buffer, cfg.Gated = 0, true
+			default:
+				panic(kind)
+			}
+			return cfg
 		}
-		for _, cfg := range cfgs {
+		var plans []plan
+		if r.Quick() {
+			plans = []plan{
+				{mk("buf1M", c16World{}, 2), 4}, {mk("buf1M", full, 2), 4},
+				{mk("buf0+cache", c16World{}, 2), 3}, {mk("buf0+cache", full, 2), 3},
+				{mk("buf0-gated", c16World{}, 2), 3}, {mk("buf0-gated", full, 2), 3},
+				{mk("buf0-gated", full, 1), 3},
+			}
+		} else {
+			for _, kind := range []string{"buf1M", "buf0+cache", "buf0-gated"} {
+				plans = append(plans, plan{mk(kind, c16World{}, 2), 5}, plan{mk(kind, full, 2), 5})
+			}
+			plans = append(plans, plan{mk("buf0-gated", full, 1), 5}, plan{mk("buf0+cache", full, 1), 5}, plan{mk("buf1M", full, 3), 5}, plan{mk("buf0+cache", c16World{}, 3), 5})
+		}
+		for _, p := range plans {
 			if r.Expired() {
 				break
 			}
-			c16Explore(r, u, cfg, depth)
+			maxDiffLayers = p.cfg.MaxDL // package variable: explorations run one after the other
+			r.Bound(p.cfg.Name+".depth", p.depth)
+			c16Explore(r, u, p.cfg, p.depth)
 		}
 	})
 }
